@@ -144,7 +144,7 @@ FeedExact(s, a) ==
 \* ---------------------------------------------------------------- the C03 table
 W == Full
 Paths == {"get", "getcached", "cachedwrite", "query", "sub", "push", "insert", "setabs", "setrel", "makesecret", "makecrown",
-          "delete", "purge", "cachedpurge", "putmany", "put", "putnew", "delayedwrite",
+          "delete", "purge", "cachedpurge", "putmany", "put", "putnew", "delayedwrite", "putmark",
           "apiget", "apiquery", "apisub", "apiqsub", "apiupdate", "apicreate", "apiinsert", "apidelete"}
 ApiPath(p) == p \in {"apiget", "apiquery", "apisub", "apiqsub", "apiupdate", "apicreate", "apiinsert", "apidelete"}
 TQ(name, via, i, q, slot, T) == Op(name, via, i, 0, 0, FALSE, FALSE, q, T[q].p, T[q].c, slot, <<>>, "pass", <<>>, 0)
@@ -182,6 +182,10 @@ PathOps(path, i, sec, crown, T) ==
             [] path = "put" -> << KeyOp("Put", "if", i, k, 3, FALSE, FALSE), KeyOp("Put", "if", i, 4, 1, TRUE, TRUE),
                                   KeyOp("Get", "if", i, 4, 0, FALSE, FALSE), KeyOp("Put", "if", i, 4, 2, FALSE, FALSE) >>
             [] path = "putnew" -> << KeyOp("PutNew", "if", i, k, 3, FALSE, FALSE) >>
+            \* the interface itself marks everything it saves with the flags of the stored record (options AlwaysMakeSecret /
+            \* AlwaysMakeCrownjewel, set by the driver for this row): marking is no privilege
+            [] path = "putmark" -> << KeyOp("Put", "if", i, k, 3, sec, crown), KeyOp("PutNew", "if", i, k, 1, sec, crown),
+                                      KeyOp("Get", "if", i, k, 0, FALSE, FALSE) >>
             \* a write accepted into a delayed write cache while the key was free, a flagged record stored there by a
             \* privileged interface meanwhile, then the flush
             [] path = "delayedwrite" -> << KeyOp("PutLater", "if", i, 4, 1, FALSE, FALSE), KeyOp("Put", "if", W, 4, 2, sec, crown),
@@ -203,7 +207,7 @@ PathOps(path, i, sec, crown, T) ==
     IN pre \o body \o post
 
 TableRows == {<<path, i, fl>> : path \in Paths, i \in Ifaces, fl \in BOOLEAN \X BOOLEAN}
-RowOK(r) == ApiPath(r[1]) => r[2] = 1
+RowOK(r) == (ApiPath(r[1]) => r[2] = 1) /\ (r[1] = "putmark" => r[2] # W)
 RowCfg(r, T) == [kind |-> IF r[1] = "push" THEN "runtime" ELSE IF r[1] \in {"purge", "cachedpurge", "putmany", "delayedwrite"} THEN "store" ELSE "any",
                  api |-> ApiPath(r[1]),
                  cachei |-> IF r[1] \in {"getcached", "cachedwrite", "cachedpurge"} THEN r[2] ELSE 0,
